@@ -16,6 +16,22 @@ import sys
 
 HERE = os.path.dirname(os.path.abspath(__file__))
 TARGET = "/verif/cache/replay-target"
+# VERIF_REPO (development / evaluation of seeded changes in a worktree): build a copy of this crate whose dryoc path
+# dependency points at that tree, with its own target directory. Registered checks always use /repo.
+_REPO = os.environ.get("VERIF_REPO", "/repo")
+if os.path.realpath(_REPO) != "/repo":
+    import hashlib, shutil
+    _tag = hashlib.sha1(os.path.realpath(_REPO).encode()).hexdigest()[:10]
+    _copy = os.path.join(os.environ.get("VERIF_SCRATCH", "/var/tmp"), "replay_" + _tag)
+    if os.path.isdir(_copy):
+        shutil.rmtree(_copy)
+    shutil.copytree(HERE, _copy, ignore=shutil.ignore_patterns("out", "target"))
+    _ct = os.path.join(_copy, "Cargo.toml")
+    _t = open(_ct).read().replace('path = "/repo"', 'path = "%s"' % os.path.realpath(_REPO))
+    open(_ct, "w").write(_t)
+    shutil.copy(os.path.join(_REPO, "Cargo.lock"), os.path.join(_copy, "Cargo.lock")) if False else None
+    HERE = _copy
+    TARGET = "/verif/cache/replay-target-" + _tag
 BINARY = os.path.join(TARGET, "release", "witness")
 BUILD_TIMEOUT = 900
 RUN_TIMEOUT = {"quick": 60, "thorough": 400}
